@@ -1142,7 +1142,8 @@ decl(struct scope *s, struct func *f)
 						error(&tok.loc, "parameter of function definition has incomplete type");
 				}
 				/* re-open scope from function declarator */
-				assert(funcscope);
+				if (!funcscope)
+					error(&tok.loc, "function definition must have a function declarator");
 				s = funcscope;
 				f = mkfunc(d, name, t, s);
 				funcbody(f, s);
